@@ -42,7 +42,7 @@ Definition run_state (j : Z) (clkb : bool) (c e : Z) (s : rstate) : tb :=
      t_clk := clkb; t_rst := false; t_time := j; t_cycles := c; t_exit := e |}.
 
 Lemma tick_power_on i file :
-  exists tp tm, tick Current d (power_on i file) = rst_state 1 true 1 (edge d tp tm 1 1 (t_s (power_on i file))).
+  exists tp tm, tick Current d (power_on Current i file) = rst_state 1 true 1 (edge d tp tm 1 1 (t_s (power_on Current i file))).
 Proof. eexists _, _. reflexivity. Qed.
 
 Lemma tick_rst_down j c s : tick Current d (rst_state j true c s) = rst_state (j + 1) false c s.
@@ -73,10 +73,10 @@ Qed.
 
 (* ------------------------------------------------------------------ C13: the ten evaluations of times 1..10 *)
 Theorem boot_state i file :
-  ticks Current d 10 (power_on i file) = rst_state 10 false 5 (reset_state (r_mem (t_s (power_on i file)))).
+  ticks Current d 10 (power_on Current i file) = rst_state 10 false 5 (reset_state (r_mem (t_s (power_on Current i file)))).
 Proof.
   destruct (tick_power_on i file) as (tp & tm & T1).
-  set (s0 := t_s (power_on i file)) in *.
+  set (s0 := t_s (power_on Current i file)) in *.
   cbn [ticks]. rewrite T1.
   rewrite tick_rst_down. change (1 + 1) with 2. rewrite tick_rst_up by lia. change (2 + 1) with 3. change (1 + 1) with 2.
   rewrite tick_rst_down. change (3 + 1) with 4. rewrite tick_rst_up by lia. change (4 + 1) with 5. change (2 + 1) with 3.
@@ -517,11 +517,28 @@ Proof.
 Qed.
 
 Lemma power_on_mem_range i file : bytes_ok file ->
-  forall a, 0 <= a -> 0 <= rd (r_mem (t_s (power_on i file))) a < RefRtl.M32.
+  forall a, 0 <= a -> 0 <= rd (r_mem (t_s (power_on Current i file))) a < RefRtl.M32.
 Proof.
-  intros F. unfold power_on. cbn [t_s r_mem]. apply load_words_range; [|lia|].
-  - intros a Ha. rewrite rd_empty. apply Z.mod_pos_bound. reflexivity.
+  intros F. unfold power_on. cbn [t_s r_mem clears_memory Current]. apply load_words_range; [|lia|].
+  - intros a Ha. unfold WMap.zero. rewrite rd_empty. unfold RefRtl.M32. lia.
   - apply loaded_words_range. exact F.
+Qed.
+
+(* load() clears the memory: whatever the power-on contents, the memory the run starts from is the ISA's boot memory *)
+Lemma power_on_is_boot i file : r_mem (t_s (power_on Current i file)) = mem (boot (loaded_words file)).
+Proof. reflexivity. Qed.
+
+(* with every word defined the bookkeeping of the defined region is vacuous *)
+Lemma safe_wb : forall n D a inp, (forall x, D x = true) -> safe_mon n a inp = true -> wb_mon D n a inp = true.
+Proof.
+  induction n as [|n IH]; intros D a inp HD H; [reflexivity|].
+  cbn [safe_mon] in H. cbn [wb_mon].
+  assert (RD : reads_defined D a = true).
+  { unfold reads_defined. apply forallb_forall. intros x _. rewrite HD. apply orb_true_r. }
+  rewrite RD. cbn [andb].
+  destruct (step a inp) as [[[a' inp'] ev]|u]; [|discriminate].
+  apply andb_prop in H. destruct H as [H1 H2]. rewrite H1. cbn [andb].
+  destruct ev; try reflexivity; apply IH; try exact H2; intros x; unfold extend; rewrite HD; reflexivity.
 Qed.
 
 (* the state after the eight evaluations in which nothing is sampled, and after the ninth *)
@@ -533,10 +550,10 @@ Proof.
 Qed.
 
 Lemma boot_state8 i file :
-  ticks Current d 8 (power_on i file) = rst_state 8 false 4 (reset_state (r_mem (t_s (power_on i file)))).
+  ticks Current d 8 (power_on Current i file) = rst_state 8 false 4 (reset_state (r_mem (t_s (power_on Current i file)))).
 Proof.
   destruct (tick_power_on i file) as (tp & tm & T1).
-  set (s0 := t_s (power_on i file)) in *.
+  set (s0 := t_s (power_on Current i file)) in *.
   cbn [ticks]. rewrite T1.
   rewrite tick_rst_down. change (1 + 1) with 2. rewrite tick_rst_up by lia. change (2 + 1) with 3. change (1 + 1) with 2.
   rewrite tick_rst_down. change (3 + 1) with 4. rewrite tick_rst_up by lia. change (4 + 1) with 5. change (2 + 1) with 3.
@@ -582,21 +599,22 @@ Proof.
       apply (phase_sim k' 11 (5 + 1) 0 (cycle d s0) a1 (extend D a0) inp [] ltac:(lia) I' R' A' WB').
 Qed.
 
-Theorem tb_is_isa_tb fuel i file inp ws D :
-  file_ok file ->
-  agree D (mem (boot ws)) (r_mem (t_s (power_on i file))) ->
-  (forall n, wb_mon D n (boot ws) inp = true) ->
-  tb_view (run Current d fuel 0 (power_on i file) inp []) = isa_tb fuel (boot ws) inp.
+Theorem tb_is_isa_tb fuel i file inp :
+  file_ok file -> well_behaved (loaded_words file) inp ->
+  tb_view (run Current d fuel 0 (power_on Current i file) inp []) = isa_tb fuel (boot (loaded_words file)) inp.
 Proof.
-  intros [F _] A WB. unfold isa_tb. destruct (fuel <=? 8)%nat eqn:Le.
+  intros [F _] WB0. set (ws := loaded_words file).
+  assert (WB : forall n, wb_mon (fun _ => true) n (boot ws) inp = true) by (intros n; apply safe_wb; [reflexivity | apply WB0]).
+  unfold isa_tb. destruct (fuel <=? 8)%nat eqn:Le.
   - apply Nat.leb_le in Le. replace fuel with (fuel + 0)%nat by lia. rewrite run_ticks by (cbn [power_on t_time]; lia). reflexivity.
   - apply Nat.leb_gt in Le. replace fuel with (8 + S (fuel - 9))%nat at 1 by lia.
     rewrite run_ticks by (cbn [power_on t_time]; lia). rewrite boot_state8.
-    set (m0 := r_mem (t_s (power_on i file))) in *.
+    set (m0 := r_mem (t_s (power_on Current i file))) in *.
     assert (I0 : Inv (reset_state m0)) by (apply reset_inv; apply power_on_mem_range; exact F).
     assert (R0 : same_regs (boot ws) (abs (reset_state m0))) by (repeat split).
+    assert (A : agree (fun _ => true) (mem (boot ws)) m0) by (intros x _; reflexivity).
     cbn [run]. rewrite guard0. cbn [negb]. rewrite tick_9.
-    apply (first_sample (fuel - 9) m0 (boot ws) D inp I0 R0 A WB).
+    apply (first_sample (fuel - 9) m0 (boot ws) (fun _ => true) inp I0 R0 A WB).
 Qed.
 
 (* ------------------------------------------------------------------ corollaries *)
@@ -618,25 +636,18 @@ Proof.
   destruct e1, e2; cbn in *; try discriminate; try congruence.
 Qed.
 
-Lemma region_agree i file (ws := loaded_words file) :
-  agree (region (Z.of_nat (List.length ws))) (mem (boot ws)) (r_mem (t_s (power_on i file))).
-Proof.
-  intros x Hx. unfold region in Hx. apply andb_prop in Hx. destruct Hx as [H0 H1]. apply Z.leb_le in H0. apply Z.ltb_lt in H1.
-  unfold boot, power_on. cbn [mem t_s r_mem]. fold ws.
-  replace x with (0 + Z.of_nat (Z.to_nat x)) by lia.
-  rewrite !rd_load_words_inside by lia. reflexivity.
-Qed.
+
 
 (* C13: the observable result does not depend on the power-on state *)
 Theorem seed_independent fuel i1 i2 file inp :
-  file_ok file -> well_behaved (Z.of_nat (List.length (loaded_words file))) (loaded_words file) inp ->
-  obs (run Current d fuel 0 (power_on i1 file) inp []) = obs (run Current d fuel 0 (power_on i2 file) inp []).
+  file_ok file -> well_behaved (loaded_words file) inp ->
+  obs (run Current d fuel 0 (power_on Current i1 file) inp []) = obs (run Current d fuel 0 (power_on Current i2 file) inp []).
 Proof.
   intros F WB.
-  pose proof (tb_is_isa_tb fuel i1 file inp _ _ F (region_agree i1 file) WB) as V1.
-  pose proof (tb_is_isa_tb fuel i2 file inp _ _ F (region_agree i2 file) WB) as V2.
+  pose proof (tb_is_isa_tb fuel i1 file inp F WB) as V1.
+  pose proof (tb_is_isa_tb fuel i2 file inp F WB) as V2.
   apply view_obs; [congruence|]. rewrite V1. unfold isa_tb. destruct (fuel <=? 8)%nat; [cbn; discriminate|].
-  apply (wb_not_stuck _ (region (Z.of_nat (List.length (loaded_words file))))). exact WB.
+  apply (wb_not_stuck _ (fun _ => true)). intros n. apply safe_wb; [reflexivity | apply WB].
 Qed.
 
 (* the ISA's own run function, when it ends with an exit, in the testbench's rhythm *)
@@ -655,27 +666,27 @@ Qed.
 
 (* ------------------------------------------------------------------ C13: the boot state, spelled out *)
 Theorem boot_canonical i file inp :
-  let st8 := ticks Current d 8 (power_on i file) in
-  let st10 := ticks Current d 10 (power_on i file) in
+  let st8 := ticks Current d 8 (power_on Current i file) in
+  let st10 := ticks Current d 10 (power_on Current i file) in
   (* nothing is sampled during the first eight evaluations; they end in the canonical state *)
-  run Current d 8 0 (power_on i file) inp [] = ([], inp, st8, TNoFuel) /\
-  (forall k, run Current d (8 + k) 0 (power_on i file) inp [] = run Current d k 0 st8 inp []) /\
+  run Current d 8 0 (power_on Current i file) inp [] = ([], inp, st8, TNoFuel) /\
+  (forall k, run Current d (8 + k) 0 (power_on Current i file) inp [] = run Current d k 0 st8 inp []) /\
   r_pc (t_s st8) = 0 /\ r_areg (t_s st8) = 0 /\ r_breg (t_s st8) = 0 /\ r_oreg (t_s st8) = 0 /\
-  r_mem (t_s st8) = r_mem (t_s (power_on i file)) /\ t_time st8 = 8 /\ t_exit st8 = 0 /\
+  r_mem (t_s st8) = r_mem (t_s (power_on Current i file)) /\ t_time st8 = 8 /\ t_exit st8 = 0 /\
   (* the one request sampled while reset is asserted (time 9) is that of the instruction at address 0 in this state *)
   (file_ok file -> sys_request Current d (tick Current d st8) = (wire d (t_s st8) n_fdata =? 211)) /\
   (* the state in which the time-11 edge fetches: registers clear, memory exactly as load() left it (no store) *)
   r_pc (t_s st10) = 0 /\ r_areg (t_s st10) = 0 /\ r_breg (t_s st10) = 0 /\ r_oreg (t_s st10) = 0 /\
-  r_mem (t_s st10) = r_mem (t_s (power_on i file)) /\
+  r_mem (t_s st10) = r_mem (t_s (power_on Current i file)) /\
   (forall j, (j < List.length (loaded_words file))%nat -> rd (r_mem (t_s st10)) (Z.of_nat j) = nth j (loaded_words file) 0) /\
   t_time st10 = 10 /\ t_clk st10 = false.
 Proof.
   cbv zeta. split; [|split].
-  - change 8%nat with (8 + 0)%nat at 1. rewrite run_ticks by (cbn [power_on t_time]; lia). reflexivity.
-  - intros k. apply run_ticks. cbn [power_on t_time]. lia.
+  - change 8%nat with (8 + 0)%nat at 1. rewrite run_ticks by (cbn [power_on Current t_time]; lia). reflexivity.
+  - intros k. apply run_ticks. cbn [power_on Current t_time]. lia.
   - rewrite boot_state, boot_state8. cbn [rst_state t_s reset_state r_pc r_areg r_breg r_oreg r_mem t_time t_clk t_exit].
     repeat (split; [reflexivity|]). split; [|repeat (split; [reflexivity|])].
-    + intros [F _]. set (m0 := r_mem (t_s (power_on i file))).
+    + intros [F _]. set (m0 := r_mem (t_s (power_on Current i file))).
       assert (I0 : Inv (reset_state m0)) by (apply reset_inv; apply power_on_mem_range; exact F).
       fold (reset_state m0). fold (rst_state 8 false 4 (reset_state m0)). rewrite tick_9, (sys_request_last_reset 5 _ I0).
       destruct I0 as [W0 _]. rewrite (rtl_fetch_is_ref _ W0). unfold ref_syscall_valid. destruct (r_fetch (reset_state m0) =? 211); reflexivity.
@@ -687,11 +698,11 @@ Qed.
    byte, and the next evaluation (time 11) is one clock of the processor and memory from that state *)
 Theorem fetch_from_zero i file b0 rest :
   file_ok file -> 1 <= header file -> skipn 4 file = b0 :: rest ->
-  let st := ticks Current d 10 (power_on i file) in
+  let st := ticks Current d 10 (power_on Current i file) in
   r_pc (t_s st) = 0 /\ wire d (t_s st) n_fdata = b0 /\ t_s (tick Current d st) = cycle d (t_s st).
 Proof.
   intros [F _] H1 E. cbv zeta. rewrite boot_state. cbn [rst_state t_s]. split; [reflexivity|]. split.
-  - set (m0 := r_mem (t_s (power_on i file))).
+  - set (m0 := r_mem (t_s (power_on Current i file))).
     assert (I0 : Inv (reset_state m0)) by (apply reset_inv; apply power_on_mem_range; exact F).
     destruct I0 as [W0 _]. rewrite (rtl_fetch_is_ref _ W0). unfold r_fetch. cbn [reset_state r_pc r_mem].
     change (0 / 4) with 0. change (0 mod 4) with 0. change (2 ^ (8 * 0)) with 1. rewrite Z.div_1_r.
@@ -723,6 +734,17 @@ Proof.
   destruct ev; try reflexivity; eapply IH; eauto.
 Qed.
 
+Lemma safe_exited : forall N a inp evs tr inp' a' c, Isa.run N a inp evs = (tr, inp', a', Exited c) ->
+  safe_mon N a inp = true -> forall n, safe_mon n a inp = true.
+Proof.
+  induction N as [|N IH]; intros a inp evs tr inp' a' c H W n; [discriminate|].
+  destruct n as [|n]; [reflexivity|].
+  cbn [Isa.run] in H. cbn [safe_mon] in W |- *.
+  destruct (step a inp) as [[[a1 inp1] ev]|u]; [|discriminate].
+  apply andb_prop in W. destruct W as [W2 W3]. rewrite W2. cbn [andb].
+  destruct ev; try reflexivity; eapply IH; eauto.
+Qed.
+
 (* ------------------------------------------------------------------ C13 on the pinned constants: refuted *)
 Definition exit7_file : list Z :=
   [9; 0; 0; 0; 151; 0; 0; 0; 61; 13; 3; 0; 81; 148; 17; 48; 130; 211; 17; 128; 255; 61; 209; 33; 55; 17; 130; 48; 211; 1; 97;
@@ -737,16 +759,16 @@ Definition outcome (r : TbModel.result) : list event * tb_end := let '(tr, _, _,
    the fill word as exit status depending on whether the processor block sees the time-1 clock edge; with areg = 1 it
    prints a spurious byte.  The current constants give 7 and no output from all of these states. *)
 Lemma legacy_witness :
-  outcome (run Legacy d 200 0 (power_on (planted 13 0 false) exit7_file) no_input []) = ([Exit 7], TReturned 7) /\
-  outcome (run Legacy d 200 0 (power_on (planted 13 0 true) exit7_file) no_input []) = ([Exit 3553874899], TReturned (-741092397)) /\
-  outcome (run Legacy d 200 0 (power_on (planted 13 1 true) exit7_file) no_input []) = ([Write 211 3553874899; Exit 7], TReturned 7) /\
-  outcome (run Current d 200 0 (power_on (planted 13 0 false) exit7_file) no_input []) = ([Exit 7], TReturned 7) /\
-  outcome (run Current d 200 0 (power_on (planted 13 0 true) exit7_file) no_input []) = ([Exit 7], TReturned 7) /\
-  outcome (run Current d 200 0 (power_on (planted 13 1 true) exit7_file) no_input []) = ([Exit 7], TReturned 7).
+  outcome (run Legacy d 200 0 (power_on Legacy (planted 13 0 false) exit7_file) no_input []) = ([Exit 7], TReturned 7) /\
+  outcome (run Legacy d 200 0 (power_on Legacy (planted 13 0 true) exit7_file) no_input []) = ([Exit 3553874899], TReturned (-741092397)) /\
+  outcome (run Legacy d 200 0 (power_on Legacy (planted 13 1 true) exit7_file) no_input []) = ([Write 211 3553874899; Exit 7], TReturned 7) /\
+  outcome (run Current d 200 0 (power_on Current (planted 13 0 false) exit7_file) no_input []) = ([Exit 7], TReturned 7) /\
+  outcome (run Current d 200 0 (power_on Current (planted 13 0 true) exit7_file) no_input []) = ([Exit 7], TReturned 7) /\
+  outcome (run Current d 200 0 (power_on Current (planted 13 1 true) exit7_file) no_input []) = ([Exit 7], TReturned 7).
 Proof. repeat split; vm_compute; reflexivity. Qed.
 
 Theorem pinned_boot_refuted : exists i1 i2 file inp fuel,
-  outcome (run Legacy d fuel 0 (power_on i1 file) inp []) <> outcome (run Legacy d fuel 0 (power_on i2 file) inp []).
+  outcome (run Legacy d fuel 0 (power_on Legacy i1 file) inp []) <> outcome (run Legacy d fuel 0 (power_on Legacy i2 file) inp []).
 Proof.
   exists (planted 13 0 false), (planted 13 0 true), exit7_file, no_input, 200%nat.
   destruct legacy_witness as (E1 & E2 & _). rewrite E1, E2. discriminate.
@@ -757,18 +779,18 @@ Qed.
    else is zero in hexsim and power-on garbage in the RTL memory *)
 Theorem tb_equals_sim i file inp n tr inp' a' c (ws := loaded_words file) :
   file_ok file ->
-  well_behaved (Z.of_nat (List.length ws)) ws inp ->
+  well_behaved ws inp ->
   Isa.run n (boot ws) inp [] = (tr, inp', a', Exited c) ->
-  (exists st, run Current d (9 + 2 * n) 0 (power_on i file) inp [] = (tr, inp', st, TReturned (SimModel.to_int c))) /\
+  (exists st, run Current d (9 + 2 * n) 0 (power_on Current i file) inp [] = (tr, inp', st, TReturned (SimModel.to_int c))) /\
   (exists s, SimModel.run n 0 (SimModel.cpp_init ws) inp [] = (tr, inp', s, SimModel.Returned (SimModel.to_int c))).
 Proof.
   intros FO WB H. pose proof FO as [F _].
   assert (Fw : Forall (fun w => 0 <= w < 4294967296) ws) by (apply loaded_words_range; exact F).
   split.
-  - pose proof (tb_is_isa_tb (9 + 2 * n) i file inp ws _ FO (region_agree i file) WB) as V.
+  - pose proof (tb_is_isa_tb (9 + 2 * n) i file inp FO WB) as V. fold ws in V.
     unfold isa_tb in V. replace (9 + 2 * n <=? 8)%nat with false in V by (symmetry; apply Nat.leb_gt; lia).
     rewrite (isa_run_phase n (boot ws) inp [] tr inp' a' c H) in V by lia.
-    destruct (run Current d (9 + 2 * n) 0 (power_on i file) inp []) as [[[t2 i2] st] e2].
+    destruct (run Current d (9 + 2 * n) 0 (power_on Current i file) inp []) as [[[t2 i2] st] e2].
     cbn in V. injection V as -> -> V. exists st. destruct e2; cbn in V; try discriminate. injection V as ->. reflexivity.
   - pose proof (SimProofs.run_is_isa_trace n (SimModel.cpp_init ws) inp []) as T.
     assert (Wf : SimProofs.wf (SimModel.cpp_init ws)).
@@ -793,10 +815,9 @@ Proof. repeat split. Qed.
 Lemma exit7_isa_run : exists a', Isa.run 20 (boot (loaded_words exit7_file)) no_input [] = ([Exit 7], no_input, a', Exited 7).
 Proof. eexists. vm_compute. reflexivity. Qed.
 
-Lemma exit7_well_behaved_loaded :
-  well_behaved (Z.of_nat (List.length (loaded_words exit7_file))) (loaded_words exit7_file) no_input.
+Lemma exit7_well_behaved_loaded : well_behaved (loaded_words exit7_file) no_input.
 Proof.
-  unfold well_behaved. destruct exit7_isa_run as [a' R]. eapply wb_exited; [exact R|]. vm_compute. reflexivity.
+  unfold well_behaved. destruct exit7_isa_run as [a' R]. eapply safe_exited; [exact R|]. vm_compute. reflexivity.
 Qed.
 
 (* files the repaired loader rejects: main returns 1 without running *)
@@ -811,7 +832,7 @@ Lemma exit7_runs : forall hidden_bits pcv av bv ov fill,
   In hidden_bits [(false, false, false, false); (true, false, true, false); (true, true, true, true); (false, true, true, false)] ->
   In (pcv, av, bv, ov, fill) [(13, 0, 0, 0, 3553874899); (12, 1, 4294967295, 0, 2155905152); (2097151, 2, 7, 4294967280, 0)] ->
   let '(a, b, c0, e) := hidden_bits in
-  outcome (run Current d 60 0 (power_on {| i_pc := pcv; i_areg := av; i_breg := bv; i_oreg := ov; i_bg := fun _ => fill;
+  outcome (run Current d 60 0 (power_on Current {| i_pc := pcv; i_areg := av; i_breg := bv; i_oreg := ov; i_bg := fun _ => fill;
                                             i_hidden := {| hp_clk := a; hp_rst := b; hm_clk := c0; hm_rst := e |} |} exit7_file) no_input [])
   = ([Exit 7], TReturned 7).
 Proof.
@@ -826,15 +847,38 @@ Qed.
 Definition first_svc_file : list Z :=
   [5; 0; 0; 0;  211; 50; 33; 48;  1; 0; 0; 0;  48; 211; 0; 0;  42; 0; 0; 0;  9; 0; 0; 0].
 Lemma first_svc_witness :
-  outcome (run Previous d 60 0 (power_on (planted 0 0 false) first_svc_file) no_input []) = ([Exit 9], TReturned 9) /\
-  outcome (run Current d 60 0 (power_on (planted 0 0 false) first_svc_file) no_input []) = ([Exit 42], TReturned 42) /\
-  outcome (run Current d 60 0 (power_on (planted 13 1 true) first_svc_file) no_input []) = ([Exit 42], TReturned 42) /\
+  outcome (run Previous d 60 0 (power_on Previous (planted 0 0 false) first_svc_file) no_input []) = ([Exit 9], TReturned 9) /\
+  outcome (run Current d 60 0 (power_on Current (planted 0 0 false) first_svc_file) no_input []) = ([Exit 42], TReturned 42) /\
+  outcome (run Current d 60 0 (power_on Current (planted 13 1 true) first_svc_file) no_input []) = ([Exit 42], TReturned 42) /\
   (exists a', Isa.run 5 (boot (loaded_words first_svc_file)) no_input [] = ([Exit 42], no_input, a', Exited 42)) /\
-  well_behaved 5 (loaded_words first_svc_file) no_input.
+  well_behaved (loaded_words first_svc_file) no_input.
 Proof.
   split; [vm_compute; reflexivity|]. split; [vm_compute; reflexivity|]. split; [vm_compute; reflexivity|].
   assert (R : exists a', Isa.run 5 (boot (loaded_words first_svc_file)) no_input [] = ([Exit 42], no_input, a', Exited 42)) by (eexists; vm_compute; reflexivity).
-  split; [exact R|]. destruct R as [a' R]. unfold well_behaved. eapply wb_exited; [exact R|]. vm_compute. reflexivity.
+  split; [exact R|]. destruct R as [a' R]. unfold well_behaved. eapply safe_exited; [exact R|]. vm_compute. reflexivity.
+Qed.
+
+(* ------------------------------------------------------------------ the tree before load() cleared the memory ([Previous]): a
+   binary that reads a word outside its image -- LDAC 0; OPR SVC with the one-word image [header 1]: EXIT takes the stack
+   pointer from word 1 and the exit word from word sp + 2, both outside the image -- returned power-on contents; now it
+   returns 0 from every power-on state, as the ISA does on zeroed memory (shipped instance: tests/asm/hello_procedure.S) *)
+Definition unwritten_read_file : list Z := [1; 0; 0; 0;  48; 211; 0; 0].
+Definition filled (v : Z) : init :=
+  {| i_pc := 0; i_areg := 0; i_breg := 0; i_oreg := 0; i_bg := fun _ => v;
+     i_hidden := {| hp_clk := false; hp_rst := false; hm_clk := false; hm_rst := false |} |}.
+Lemma clearing_witness :
+  outcome (run Previous d 60 0 (power_on Previous (filled 0) unwritten_read_file) no_input []) = ([Exit 0], TReturned 0) /\
+  outcome (run Previous d 60 0 (power_on Previous (filled 5) unwritten_read_file) no_input []) = ([Exit 5], TReturned 5) /\
+  outcome (run Current d 60 0 (power_on Current (filled 0) unwritten_read_file) no_input []) = ([Exit 0], TReturned 0) /\
+  outcome (run Current d 60 0 (power_on Current (filled 5) unwritten_read_file) no_input []) = ([Exit 0], TReturned 0) /\
+  (exists a', Isa.run 5 (boot (loaded_words unwritten_read_file)) no_input [] = ([Exit 0], no_input, a', Exited 0)) /\
+  file_ok unwritten_read_file /\ well_behaved (loaded_words unwritten_read_file) no_input.
+Proof.
+  do 4 (split; [vm_compute; reflexivity|]).
+  assert (R : exists a', Isa.run 5 (boot (loaded_words unwritten_read_file)) no_input [] = ([Exit 0], no_input, a', Exited 0)) by (eexists; vm_compute; reflexivity).
+  split; [exact R|]. split.
+  - split; [unfold bytes_ok, unwritten_read_file; repeat constructor; lia|]. split; vm_compute; [reflexivity | discriminate].
+  - destruct R as [a' R]. unfold well_behaved. eapply safe_exited; [exact R|]. vm_compute. reflexivity.
 Qed.
 
 (* ------------------------------------------------------------------ the full-strength C06 statement (the monitor without the
@@ -842,24 +886,23 @@ Qed.
    (READ, result slot = word 2 = this very word) | LDAC 0; OPR SVC (EXIT) + console stream word | 7.  Input '!' = STAM 1. *)
 Definition tb_equals_sim_full : Prop :=
   forall i file inp n tr inp' a' c, let ws := loaded_words file in
-  file_ok file -> well_behaved0 (Z.of_nat (List.length ws)) ws inp ->
+  file_ok file -> well_behaved0 ws inp ->
   Isa.run n (boot ws) inp [] = (tr, inp', a', Exited c) ->
-  (exists st, run Current d (9 + 2 * n) 0 (power_on i file) inp [] = (tr, inp', st, TReturned (SimModel.to_int c))) /\
+  (exists st, run Current d (9 + 2 * n) 0 (power_on Current i file) inp [] = (tr, inp', st, TReturned (SimModel.to_int c))) /\
   (exists s, SimModel.run n 0 (SimModel.cpp_init ws) inp [] = (tr, inp', s, SimModel.Returned (SimModel.to_int c))).
 
 Definition read_own_svc_file : list Z :=
   [5; 0; 0; 0;  50; 150; 0; 0;  1; 0; 0; 0;  211; 0; 0; 0;  48; 211; 0; 128;  7; 0; 0; 0].
 Definition bang_input : inputs := {| console := [33]; files := fun _ => [] |}.
 
-Lemma wb0_exited : forall N D a inp evs tr inp' a' c, Isa.run N a inp evs = (tr, inp', a', Exited c) ->
-  wb_mon0 D N a inp = true -> forall n, wb_mon0 D n a inp = true.
+Lemma safe0_exited : forall N a inp evs tr inp' a' c, Isa.run N a inp evs = (tr, inp', a', Exited c) ->
+  safe_mon0 N a inp = true -> forall n, safe_mon0 n a inp = true.
 Proof.
-  induction N as [|N IH]; intros D a inp evs tr inp' a' c H W n; [discriminate|].
+  induction N as [|N IH]; intros a inp evs tr inp' a' c H W n; [discriminate|].
   destruct n as [|n]; [reflexivity|].
-  cbn [Isa.run] in H. cbn [wb_mon0] in W |- *.
-  apply andb_prop in W. destruct W as [W1 W2]. rewrite W1. cbn [andb].
+  cbn [Isa.run] in H. cbn [safe_mon0] in W |- *.
   destruct (step a inp) as [[[a1 inp1] ev]|u]; [|discriminate].
-  apply andb_prop in W2. destruct W2 as [W2 W3]. rewrite W2. cbn [andb].
+  apply andb_prop in W. destruct W as [W2 W3]. rewrite W2. cbn [andb].
   destruct ev; try reflexivity; eapply IH; eauto.
 Qed.
 
@@ -870,8 +913,8 @@ Proof.
   { split; [unfold bytes_ok, read_own_svc_file; repeat constructor; lia|]. split; vm_compute; [reflexivity | discriminate]. }
   destruct (Isa.run 12 (boot (loaded_words read_own_svc_file)) bang_input []) as [[[tr inp'] a'] e] eqn:R.
   assert (E : e = Exited 2147537712) by (vm_compute in R; injection R as _ _ _ <-; reflexivity). subst e.
-  assert (WB : well_behaved0 (Z.of_nat (List.length (loaded_words read_own_svc_file))) (loaded_words read_own_svc_file) bang_input).
-  { unfold well_behaved0. eapply wb0_exited; [exact R|]. vm_compute. reflexivity. }
+  assert (WB : well_behaved0 (loaded_words read_own_svc_file) bang_input).
+  { unfold well_behaved0. eapply safe0_exited; [exact R|]. vm_compute. reflexivity. }
   destruct (F (planted 0 0 false) read_own_svc_file bang_input 12%nat tr inp' a' 2147537712 FO WB R) as [[st T] _].
   apply (f_equal (fun r : TbModel.result => snd r)) in T. cbn [snd] in T. vm_compute in T. discriminate.
 Qed.
